@@ -791,3 +791,6 @@ func (g *Graph) EntryLoc() Loc { return Loc{g.Entry, 0} }
 func InNode(outer ast.Node, n ast.Node) bool {
 	return outer != nil && n != nil && outer.Pos() <= n.Pos() && n.End() <= outer.End()
 }
+
+// Before returns the same location (helper for readability when a table starts at a statement).
+func (l Loc) Before() Loc { return l }
